@@ -35,12 +35,12 @@ def setup(rep):
     rep.clause("uniform-symmetry", "P", "uniform reflected path: reciprocity of length and tof using the C18 closed form as the contract "
                "of path_length; invariances follow from that closed form (function of rho and depths)")
     rep.clause("layered-symmetry", "N", "layered tracer: 170-line numeric scan over launch angles - outside the executor's subset; "
-               "translation/rotation invariance and reciprocity of stacks with gradient-index layers are not covered beyond the "
-               "one geometry of known finding D14")
+               "translation/rotation invariance of layered solutions is not covered")
     rep.clause("layered-reciprocity-uniform-layers", "B", "LayeredRayTracer over three uniform layers: same number of solutions both "
                "ways, equal tof and path length, directions exchanged and reversed, exists iff solutions - native sampling")
-    rep.clause("layered-reciprocity-gradient-layer", "B", "one fixed geometry (firn over uniform bulk) at which the solution count "
-               "is not reciprocal on the pinned tree: known finding D14; exists iff solutions must still hold there")
+    rep.clause("layered-reciprocity-gradient-layer", "B", "firn (gradient index) over uniform bulk: same number of solutions both ways, "
+               "equal tof, exists iff solutions, ray direction mirrored at every reflection joint - native sampling, plus the fixed "
+               "geometry at which defect D14 (fixed by 87459b4) was found")
     rep.assume("A1, A2; A6 idealised brentq and determinism of the root search for identical arguments")
     rep.assume("contract of SpecializedRayTracePath._z_int_uniform_correction (function of its arguments, antisymmetric in the limits) is "
                "the one proved in C01 (uniform_correction_is_sum_of_regime_integrals)")
